@@ -214,6 +214,32 @@ def _preamble(repo, rep):
                           construct="mutable-global:" + src(st.targets[0]),
                           detail=src(st)[:80])
     rep.require_min("R14.2", 4, "preamble assignments")
+    # Static(...) values are module-level objects as well (one per compiled
+    # template, shared by every render and thread): a dictionary among them
+    # that is handed to template expressions under a name (attrs) can be
+    # changed by one render and seen by the next
+    zp = repo.module("chameleon.zpt.program")
+    exposed = []
+    for n in ast.walk(zp.tree):
+        if isinstance(n, ast.Call) and src(n.func) == "nodes.Alias" and \
+                len(n.args) >= 2 and isinstance(n.args[0], ast.List):
+            names_ = [e.value for e in n.args[0].elts
+                      if isinstance(e, ast.Constant)]
+            val = src(n.args[1])
+            if any(x in val for x in ("STATIC_ATTRIBUTES", "EMPTY_DICT")):
+                exposed.append((names_, val, n.lineno))
+    statics_are_dicts = any(
+        isinstance(n, ast.Call) and src(n.func) == "Static" and n.args and (
+            "ast.Dict" in src(n.args[0]) or "repr(static_attrs)" in src(
+                n.args[0])) for n in ast.walk(zp.tree))
+    rep.check(not (exposed and statics_are_dicts), "R14.2",
+              "chameleon.zpt.program.MacroProgram.visit_element",
+              "no module-level mutable object of the compiled template is "
+              "handed to template expressions (the static attribute "
+              "dictionary bound to 'attrs' is one object for all renders)",
+              construct="static-dict-exposed",
+              detail="nodes.Alias(%s, %s) at line %s" % exposed[0]
+              if exposed else "")
     # no render function stores to these names
     names = set()
     for w in A.walk(res.emission):
